@@ -78,12 +78,19 @@ impl Check for C17 {
 		let mut fc = FaultCount::new();
 		match i % 4 {
 			0 => {
+				// the period is a usize, not a PeriodType: one run in eight takes it beyond 8 (and 16) bits' worth of inputs
+				let large = r.below(8) == 7;
 				let period = match r.below(6) {
+					_ if large => [255u64, 256, 257, 300, 1440][r.usize_below(5)] + if r.chance(0.3) { r.below(700) } else { 0 },
 					0 => 1,
 					1 => 2,
 					_ => r.range(1, 40),
 				};
-				let len = r.usize_below(if tier == Tier::Quick { 300 } else { 900 }) + 1;
+				let len = if large {
+					period as usize * (1 + r.usize_below(3)) + r.usize_below(period as usize + 1) + 1
+				} else {
+					r.usize_below(if tier == Tier::Quick { 300 } else { 900 }) + 1
+				};
 				let stream = feed::to_in_candles(&feed::candles(&mut run.sub("feed"), len, &cfg, &mut fc));
 				let ranges = (0..4)
 					.map(|_| {
@@ -194,7 +201,7 @@ impl Check for C17 {
 					})
 					.and_then(|r| r)
 				};
-				stats.cover(format!("collapse|period={}|len%p={}", if p > 4 { ">4".into() } else { p.to_string() }, (cs.len() % p).min(2)));
+				stats.cover(format!("collapse|period={}|len%p={}", if p >= 255 { ">=255".into() } else if p > 4 { ">4".into() } else { p.to_string() }, (cs.len() % p).min(2)));
 				match stream_run(&cs) {
 					Ok(outs) => {
 						stats.ticks += outs.len() as u64;
